@@ -362,7 +362,7 @@ fn main() {
     }
     let thorough = a.tier == "thorough";
     let mut rng = Rng::new(a.seed ^ 0xC19);
-    let budget: usize = std::env::var("SV_CASES").ok().and_then(|x| x.parse().ok()).unwrap_or(if thorough { 40000 } else { 900 });
+    let budget: usize = std::env::var("SV_CASES").ok().and_then(|x| x.parse().ok()).unwrap_or(if thorough { 40000 } else { 2500 });
     // all candidate (shape, seg, comp, k)
     let mut cands: Vec<Case> = Vec::new();
     for &seg in &[131072usize, 262144] {
